@@ -14,14 +14,16 @@ LEVEL = "exploration"
 RULE = (
     "store/load kernels: a store in every addressing shape (base, base+disp, base+index*scale+disp), 0-3 instructions in between "
     "(constant add/sub/inc/dec of the base or index, register copy, clobber of the base, unrelated work, AArch64 pre/post-indexed "
-    "accesses, a second store to the same or another operand), then 1-3 loads whose displacement is the adjusted one or a near miss "
+    "accesses, a second store to the same or another operand; after a write-back store: a copy of its base), then 1-3 loads whose displacement is the adjusted one or a near miss "
     "(off by 8 / 1, other base, other index, other scale); synthetic ISA databases on synthetic models and the curated real "
     "vocabulary on every shipped model of the ISA. Non-trivial: the expected relation is non-empty and the kernel also contains a "
     "near-miss load; distinct by digest of the kernel text"
 )
 ASSUMPTIONS = [
     "address registers are modified only through their full-width name, and only by constant add/sub/inc/dec, copies or clobbers "
-    "(DESIGN.md section 2, R-deps); a store's own write-back combined with later accesses through the same base is don't-care",
+    "(DESIGN.md section 2, R-deps); the write-back of a pre/post-indexed store itself is part of the tracked changes (judged through loads "
+    "that use a copy of the base taken right after the store - a load through the base itself has a register dependency on the "
+    "store anyway); once the base of a write-back store is written again the real search gives up: those pairs are don't-care",
     "edge weight: store latency (with or without its load stage for read-modify-write forms) + store_to_load_forward_latency (default 0)",
 ]
 SHARD_TIMEOUT = {"quick": 600, "thorough": 3600}
